@@ -33,7 +33,7 @@ Print Assumptions C09_fill_loop.
     undelivered, or upstream has ended (and was dropped), or upstream was polled during this call
     and its last answer was Pending *)
 Theorem C09_pending_is_work_conserving :
-  forall (P : params), params_ok P -> forall (own : nat -> nat) (a : adapter) (t : nat) (w : world),
+  forall (P : params) (own : nat -> nat) (a : adapter) (t : nat) (w : world),
   winv own None w -> ad_ok own a ->
   let '(a', r, w') := adapter_poll P a t w in
   r = RetPending ->
